@@ -102,9 +102,25 @@ def _norm(c):
     return c
 
 
+def has_nan(o):
+    """NaN != NaN by definition: an object holding one is not equal to itself, let alone to a copy."""
+    import numpy as np
+
+    try:
+        v = o.GetAbstractValue() if hasattr(o, "GetAbstractValue") else float(o)
+        if hasattr(v, "GetNumber"):
+            v = float(v)
+        return bool(np.isnan(np.asarray(v, dtype=float)).any())
+    except Exception:
+        return False
+
+
 def check_copy(ctx, how, a, b, case):
     from barril.basic.fraction import Fraction, FractionValue
 
+    if has_nan(a):
+        ctx.count("copies of NaN-holding objects not compared")
+        return
     ctx.ev()
     try:
         eq = a == b
@@ -305,7 +321,7 @@ def one_history(ctx, gid, n_steps, mon):
         for label, before, after in P.check():
             ctx.violation("pool-member-changed:%s:after:%s" % (label.split("#")[0], desc[0]), dict(case, member=label, before=repr(before)[:300], after=repr(after)[:300]), replay=case)
         # results join the pool now and then (so chains of operations on results are explored too)
-        if out == "ok" and res is not None and hasattr(res, "GetQuantity") and len(P.members) < 90 and r.random() < 0.15:
+        if out == "ok" and res is not None and hasattr(res, "GetQuantity") and len(P.members) < 90 and r.random() < 0.15 and not has_nan(res):
             P.add("result of %s#%d" % (desc[0], step), res)
     for o, n in outcomes.items():
         ctx.count("step outcome %s" % o, n)
